@@ -1312,8 +1312,8 @@ impl<const N: usize, T> CircularBuffer<N, T> {
     /// ```
     pub fn try_push_back(&mut self, item: T) -> Result<(), T> {
         if N == 0 {
-            // Nothing to do
-            return Ok(());
+            // A zero-capacity buffer is always full; return the pushed item as error
+            return Err(item);
         }
         if self.size >= N {
             // At capacity; return the pushed item as error
@@ -1413,8 +1413,8 @@ impl<const N: usize, T> CircularBuffer<N, T> {
     /// ```
     pub fn try_push_front(&mut self, item: T) -> Result<(), T> {
         if N == 0 {
-            // Nothing to do
-            return Ok(());
+            // A zero-capacity buffer is always full; return the pushed item as error
+            return Err(item);
         }
         if self.size >= N {
             // At capacity; return the pushed item as error
